@@ -268,14 +268,16 @@ def attribute(case, msgs):
 
 def run(ctx):
     quick = ctx.tier == "quick"
-    n_all, n_red, n_single, maxnest = (1, 3, 4, 2) if quick else (2, 4, 5, 3)
+    n_all, n_red, n_single, maxnest = (1, 2, 4, 2) if quick else (2, 4, 5, 3)
     case = common.rot(["lower", "upper", "mixed"], ctx.seed + 3)[0]
     en = functools.partial(enabled, maxnest=maxnest)
     hs = modsearch.all_histories(n_single, en)
     # the longest modules are restricted to those that start with a container (class or test) - the commands whose
     # content the options act on; everything shorter is complete
+    # quick: modules of 3 events are complete but run under the single-deviation configurations only
+    full_len = n_red if not quick else 3
     jobs = [(h, "all" if len(h) <= n_all else "reduced" if len(h) <= n_red else "single") for h in hs
-            if len(h) <= n_red or h[0]["k"] in ("cpp_class", "ct_add_test")]
+            if len(h) <= full_len or h[0]["k"] in ("cpp_class", "ct_add_test")]
     ctx.cov["bounds"] = {"events_full_2^10": n_all, "events_reduced_product": n_red, "events_single_flag_deviations": n_single,
                          "longest_modules_restricted_to": "first event is cpp_class or ct_add_test", "max_nesting": maxnest,
                          "flags": FLAGS, "command_case": case}
